@@ -2439,8 +2439,8 @@ func (d *Document) parseParagraphWithFormula(decoder *xml.Decoder, startElement 
 						Math:  &OfficeMath{Xmlns: "http://schemas.openxmlformats.org/officeDocument/2006/math", RawXML: para.Math.Inner},
 					}
 				}
-			case "hyperlink", "smartTag", "ins", "moveTo", "fldSimple", "customXml", "sdt", "sdtContent":
-				// 这些元素只是包裹着Run（超链接、智能标记、修订插入、简单域、行内内容控件）：
+			case "hyperlink", "smartTag", "ins", "moveTo", "fldSimple", "customXml", "sdt", "sdtContent", "dir", "bdo":
+				// 这些元素只是包裹着Run（超链接、智能标记、修订插入、简单域、行内内容控件、双向文字方向 w:dir/w:bdo）：
 				// 继续读取其中的Run，使它们承载的文本不会丢失；包裹元素的结束标签在下面被忽略
 			default:
 				// 跳过其他元素（包括 w:del/w:moveFrom 中已删除的文本和 sdtPr 等属性）
